@@ -163,6 +163,12 @@ pub fn boundary(after_unwind: bool) {
                 w.objs[i].rec_reported = true;
                 w.violation(&["C09"], "side-record-leaked", "side-record-leaked".into(), format!("side record of obj{} still allocated although the allocation and every Weak are gone", id), false);
             }
+            // C14: after a panicked new_cyclic "all memory is released" - also the side record, once
+            // the clones saved by the closure are gone (this holds whatever else panicked)
+            if rec_live && weak_n == 0 && !b_live && w.objs[i].never_init && !w.objs[i].rec_reported {
+                w.objs[i].rec_reported = true;
+                w.violation(&["C14", "C09"], "side-record-leaked", "side-record-leaked/after-panicked-new-cyclic".into(), format!("side record of obj{} (new_cyclic whose closure panicked) still allocated although its box and every Weak are gone", id), false);
+            }
         }
     });
 
